@@ -78,3 +78,81 @@ def sess_texts(texts, entries=('string',), pre=(), post_each=('err', 'dump'), ta
                 stats[k] = stats.get(k, 0) + 1
         impl.do('wf')
     return fn
+
+# ------------------------------------------------------------------ C08: numeric literals
+
+import re, struct
+
+def expected_literal(lit):
+    """Independent (Python big-int / correctly rounded float) reading of a numeric literal.
+    Returns None for 'must be rejected', else (type, format, value-text-as-in-dump)."""
+    s = lit.decode('latin-1')
+    m = re.fullmatch(r'0[Xx]([0-9A-Fa-f]+)(L?L?)', s)
+    if m:
+        v = int(m.group(1), 16)
+        if m.group(2):
+            if v >= 2**64: return None
+            return (3, 1, str(v - 2**64 if v >= 2**63 else v))
+        if v >= 2**32: return None
+        return (2, 1, str(v - 2**32 if v >= 2**31 else v))
+    m = re.fullmatch(r'([-+]?)([0-9]+)(L?L?)', s)
+    if m:
+        ds = m.group(2)
+        if ds[0] == '0':
+            if any(c in '89' for c in ds): return None
+            v = int(ds, 8)
+        else:
+            v = int(ds, 10)
+        if m.group(1) == '-': v = -v
+        if m.group(3):
+            return (3, 0, str(v)) if -2**63 <= v < 2**63 else None
+        if -2**31 <= v < 2**31: return (2, 0, str(v))
+        if -2**63 <= v < 2**63: return (3, 0, str(v))
+        return None
+    m = re.fullmatch(r'([-+]?)([0-9]*)(?:\.([0-9]*))?(?:[eE]([-+]?[0-9]+))?', s)
+    if m and ('.' in s or 'e' in s or 'E' in s):
+        ip, fp = m.group(2) or '', m.group(3) or ''
+        if not ip and not fp:
+            x = 0.0      # atof: no conversion
+        else:
+            x = float((m.group(1) or '') + (ip or '0') + '.' + (fp or '0') + ('e' + m.group(4) if m.group(4) else ''))
+        if x in (float('inf'), float('-inf')): return None
+        return (4, 0, '%016x' % struct.unpack('<Q', struct.pack('<d', x))[0])
+    return 'not-a-literal'
+
+def sess_c08(lits, expect):
+    def fn(impl, rng, stats):
+        impl.do('init')
+        for lit in lits:
+            exp = expected_literal(lit)
+            if exp == 'not-a-literal':
+                continue
+            form = rng.below(3)
+            text = [b'a = ' + lit + b';', b'a=' + lit, b'a = [ ' + lit + b' ];'][form]
+            out = impl.do('read_string ' + hexs(text))
+            impl.do('err')
+            impl.do('dump')
+            expect[len(impl.ops) - 3] = (exp, lit, form)
+            k = 'c08:%s' % ('reject' if exp is None else 'type%d' % exp[0])
+            stats[k] = stats.get(k, 0) + 1
+    return fn
+
+def oracle_c08(expect):
+    def oracle(ops, outs):
+        for i, (exp, lit, form) in expect.items():
+            if i + 2 >= len(outs):
+                continue
+            got = outs[i].split(' ')[0]
+            if exp is None:
+                if got != '0':
+                    return i + 2, 'literal %r cannot be represented but the read succeeded: %s' % (lit, outs[i + 2][-120:])
+                if outs[i + 1].split(' ')[0] != '2':
+                    return i + 1, 'literal %r rejected without a parse error: %s' % (lit, outs[i + 1])
+            else:
+                if got != '1':
+                    return i, 'literal %r (exact value representable) was rejected: %s' % (lit, outs[i + 1])
+                want = '(-,%d,%d,%s,' % exp if form == 2 else '(61,%d,%d,%s,' % exp
+                if want not in outs[i + 2]:
+                    return i + 2, 'literal %r stored as %s, its exact value is %s' % (lit, outs[i + 2][outs[i + 2].find('root='):][:160], want)
+        return None
+    return oracle
